@@ -317,6 +317,40 @@ def case_leakage(c):
     return {'viol': viol, 'n': n, 'nontrivial': [engine.sha(c)], 'outcomes': ['leak/%s' % asc]}
 
 
+def case_stem(c):
+    """raw_utils.get_stem: the stem of a recorded file is the stem it was recorded under (dots included), so that the
+    parameters can be read back from a file name."""
+    import setigen.voltage as sv
+    from setigen.voltage import raw_utils
+    viol = []
+    wd = engine.workdir()
+    stem = os.path.join(wd, c['name'])
+    ant = sv.Antenna(sample_rate=1024.0, fch1=0.0, ascending=True, num_pols=1, seed=1)
+    ant.x.add_noise(0, 1)
+    be = sv.RawVoltageBackend(ant, digitizer=sv.RealQuantizer(), filterbank=sv.PolyphaseFilterbank(num_taps=2, num_branches=8),
+                              requantizer=sv.ComplexQuantizer(), start_chan=0, num_chans=2, block_size=2 * 2 * 4 * 2,
+                              blocks_per_file=1, num_subblocks=1)
+    for fn in guppi.list_files(stem):
+        os.remove(fn)
+    try:
+        be.record(output_file_stem=stem, num_blocks=2, length_mode='num_blocks', header_dict={}, load_template=False, verbose=False)
+        for fn in guppi.list_files(stem):
+            got = str(raw_utils.get_stem(fn))
+            if got != stem:
+                viol.append({'site': 'raw_utils.get_stem', 'failure': 'stem', 'detail': 'get_stem(%r) = %r, recorded under %r'
+                             % (os.path.basename(fn), os.path.basename(got), c['name'])})
+                break
+            rp = raw_utils.get_raw_params(raw_utils.get_stem(fn), start_chan=0)
+            if int(rp['num_chans']) != 2:
+                viol.append({'site': 'raw_utils.get_raw_params', 'failure': 'params_via_stem', 'detail': 'num_chans=%r' % rp['num_chans']})
+    except Exception as e:
+        viol.append({'site': 'raw_utils.get_stem', 'failure': 'raised', 'detail': '%s: %s' % (type(e).__name__, e)})
+    finally:
+        for fn in guppi.list_files(stem):
+            os.remove(fn)
+    return {'viol': viol, 'n': 1, 'nontrivial': [engine.sha(c)], 'outcomes': ['stem/%d' % c['name'].count('.')]}
+
+
 def run(ctx):
     Tt = ctx.tier == 'thorough'
     cases = []
@@ -365,6 +399,7 @@ def run(ctx):
                     if directio and N == 4:
                         red.append(dict(N=N, I=I, nc=nc, T=64, directio=directio, seed=ctx.seed, aligned=True))
     ctx.pmap(case_reducer, red)
+    ctx.pmap(case_stem, [dict(name=nm) for nm in ('c07stem_plain', 'c07stem_obs_1.5GHz', 'c07stem_a.b.c', 'c07stem_guppi_59114.5_TMC1')])
     ctx.pmap(case_leakage, [dict(rate=r_, P=P_, N=N_, asc=a_, fch1=f_) for (r_, P_) in ((1024.0, 16), (3e9, 1024))
                             for N_ in (16, 1024) for a_ in (True, False) for f_ in (0.0, 6e9) if not (not a_ and f_ == 0.0)])
     # reading the parameters back from a stem that was recorded before with ANOTHER orientation / fch1 / first channel
